@@ -226,11 +226,13 @@ class _NS:
 
 @obligation("C16", "ukf_permutation", ensures=["O-C16-perm.posterior"], fns=[UK + "UnscentedKalmanFilter.update", UK + "UnscentedKalmanFilter.forecast"], mode="R",
             bounded="state dimension 1, two stacked scalar observations, both orders; all values symbolic", timeout_ms=60000,
-            note="processing the same two simultaneous observations in either order gives the same posterior estimate and covariance (exactly, in real arithmetic)")
+            note="processing the same two simultaneous observations (here: of one sensor) in either order gives the same posterior estimate and covariance (exactly, in real arithmetic)")
 def ukf_permutation(vc):
     from contracts import C06
     f1, e1 = C06._setup(vc, 1, [1, 1], True)
     f2, e2 = C06._setup(vc, 1, [1, 1], True)
+    for o in e1["obs"] + e2["obs"]:
+        o.sensor_id = 900   # two simultaneous reports of ONE sensor (e.g. angles and range of a radar) are two observations
     for f in (f1, f2):
         px = vc.vec("px", 1, -100, 100)
         pP, pL = C06._spd(vc, "pP", 1)
@@ -308,7 +310,8 @@ def filter_bounded(vc):
     vc.ensure("B-C16-filter.wrap-point", same(base, run(list(range(n_obs)), shift=shift)))
     ang = np.array([kd != IsAngle.NOT_ANGLE for i in range(n_obs) for kd in specs[i][0]])
     inn = np.asarray(base.innovation, dtype=float)
-    vc.ensure("B-C16-filter.innovation-range", bool(np.all((inn[ang] > -np.pi) & (inn[ang] <= np.pi))))
+    # every component of every stacked observation is used: the stacked innovation has one entry per component (observations of one sensor included)
+    vc.ensure("B-C16-filter.innovation-range", bool(inn.shape == ang.shape and np.all((inn[ang] > -np.pi) & (inn[ang] <= np.pi))))
 
 
 @obligation("C16", "windows", ensures=["O-C16-window.map", "O-C16-window.mean-uses-own-window"], fns=[UK + "UnscentedKalmanFilter.calcMeasurementMean"], mode="R",
